@@ -1,9 +1,14 @@
 (* C18 -- bootstrap intervals are reproducible, ordered and shaped like the estimates.
    Only statements, `exact`, and Print Assumptions.  All definitions (populate_ci, calc_quantile1,
    np_quantile, np_nanquantile, qquantile, resample ...) are the ones of FL.Bootstrap that the
-   correspondence run evaluates on the logged resamples. *)
+   correspondence run evaluates on the logged resamples.  The C18_source_* theorems tie those definitions to
+   the source: FLGen.Gen_bootstrap.src is REGENERATED from /repo on every run by translators/t_bootstrap.py
+   (frac / replace / axis of the sample call, the seed stream, np.quantile vs np.nanquantile, q as given, axis,
+   default method, the dispatch, the union fold, n_boot / ci_quantiles as handed on by __init__, the eight
+   caches and the accessors that read them). *)
 From Coq Require Import QArith ZArith List Bool.
-From FL Require Import Num ListX Flat Bootstrap Bootstrap_proofs.
+From FL Require Import Num ListX Flat Bootstrap Bootstrap_proofs BootstrapSrc BootstrapSrc_proofs.
+From FLGen Require Gen_bootstrap.
 Import ListNotations.
 Open Scope Q_scope.
 
@@ -165,6 +170,138 @@ Theorem C18_deterministic :
 Proof. exact populate_ci_deterministic. Qed.
 Print Assumptions C18_deterministic.
 
+(* ------------------------------------------------------------------------------------------------ *)
+(* tie to the source (regenerated fragment)                                                          *)
+(* ------------------------------------------------------------------------------------------------ *)
+
+(* the decisions read off the current source are the constants the model uses: frac = 1, replace = True,
+   axis = 0, seed of the caller; `random_state is None`, default_rng() / default_rng(seed=random_state),
+   integers(0, uint32 max, size=n_samples, uint32), n_samples iterations, rs[i]; np.quantile for Series and
+   np.nanquantile (after alignment) for DataFrames with q as given, axis 0, default method; union fold;
+   dispatch on the type of sample 0; n_samples = n_boot, ci_quantiles unchanged, data of the point estimate;
+   the eight caches with their aggregates (errors="raise") and the accessors that return them *)
+Theorem C18_source_tie : Gen_bootstrap.src = model_src.
+Proof. reflexivity. Qed.
+Print Assumptions C18_source_tie.
+
+(* the meaning of the regenerated description (BootstrapSrc.populate_src: interpreter of the tags) is the
+   model that all theorems above are about and that the correspondence run evaluates *)
+Theorem C18_source_semantics :
+  forall ms ncf nsf qs rows idxs,
+  populate_src Gen_bootstrap.src ms ncf nsf qs rows idxs = populate_ci ms ncf nsf qs rows idxs.
+Proof. exact populate_src_model. Qed.
+Print Assumptions C18_source_semantics.
+
+(* ... observable by observable: what accessor number t returns (0..7: overall_ci, by_group_ci, group_min_ci,
+   group_max_ci, difference_ci(), ratio_ci(), difference_ci("to_overall"), ratio_ci("to_overall")) is entry t
+   of the model's all_lists *)
+Theorem C18_source_observables :
+  forall ms ncf nsf qs rows idxs t, (t < 8)%nat ->
+  observable_src Gen_bootstrap.src ms ncf nsf qs rows idxs
+    (nth t [SOverall; SByGroup; SGroupMin; SGroupMax; SDifference Between; SRatio Between;
+            SDifference ToOverall; SRatio ToOverall] SOverall) =
+  nth t (all_lists (populate_ci ms ncf nsf qs rows idxs)) [].
+Proof. exact observable_src_model. Qed.
+Print Assumptions C18_source_observables.
+
+(* the positions the source's sample call may return (rows, round(frac * n) of them, repetition allowed iff
+   replace) are exactly the resamples the model quantifies over *)
+Theorem C18_source_resample_spec :
+  forall n idx, sample_spec (b_sample Gen_bootstrap.src) n idx <-> valid_resample n idx.
+Proof. exact sample_spec_model. Qed.
+Print Assumptions C18_source_resample_spec.
+
+(* the seed stream of the source, for every generator (fresh: unseeded, a function of outside entropy;
+   seeded: a function of the integer seed) and every sampler draw: an integer random_state fixes the
+   resamples (nothing depends on the entropy), n_boot of them are generated, and resample i is drawn with
+   seed number i of the stream (one seed per sample) *)
+Theorem C18_source_seeded_positions :
+  forall (seed entropy : Type) (fresh : draw_call -> entropy -> nat -> list seed)
+         (seeded : draw_call -> Z -> nat -> list seed) (draw : seed -> nat -> list nat) (dflt : seed)
+         (e e' : entropy) (z : Z) (nboot n : nat),
+  let P := positions_src seed entropy fresh seeded draw dflt (b_stream Gen_bootstrap.src) in
+  P e (RSInt z) nboot n = P e' (RSInt z) nboot n /\
+  length (P e (RSInt z) nboot n) = nboot /\
+  forall i, (i < nboot)%nat ->
+    nth i (P e (RSInt z) nboot n) [] = draw (nth i (seeded model_draw z nboot) dflt) n.
+Proof. exact positions_seeded. Qed.
+Print Assumptions C18_source_seeded_positions.
+
+(* if the sampler respects the source's sample call, every generated resample is a valid resample *)
+Theorem C18_source_positions_valid :
+  forall (seed entropy : Type) (fresh : draw_call -> entropy -> nat -> list seed)
+         (seeded : draw_call -> Z -> nat -> list seed) (draw : seed -> nat -> list nat) (dflt : seed)
+         (e : entropy) (z : Z) (nboot n : nat),
+  (forall s, sample_spec (b_sample Gen_bootstrap.src) n (draw s n)) ->
+  Forall (valid_resample n)
+         (positions_src seed entropy fresh seeded draw dflt (b_stream Gen_bootstrap.src) e (RSInt z) nboot n).
+Proof. exact positions_valid. Qed.
+Print Assumptions C18_source_positions_valid.
+
+(* reproducible: the same integer random_state gives the same eight interval lists *)
+Theorem C18_source_same_seed_same_intervals :
+  forall (seed entropy : Type) (fresh : draw_call -> entropy -> nat -> list seed)
+         (seeded : draw_call -> Z -> nat -> list seed) (draw : seed -> nat -> list nat) (dflt : seed)
+         ms ncf nsf qs rows (e e' : entropy) (z : Z) (nboot : nat),
+  let P := positions_src seed entropy fresh seeded draw dflt (b_stream Gen_bootstrap.src) in
+  populate_ci ms ncf nsf qs rows (P e (RSInt z) nboot (length rows)) =
+  populate_ci ms ncf nsf qs rows (P e' (RSInt z) nboot (length rows)).
+Proof. exact same_seed_same_intervals. Qed.
+Print Assumptions C18_source_same_seed_same_intervals.
+
+(* ------------------------------------------------------------------------------------------------ *)
+(* extreme quantiles                                                                                  *)
+(* ------------------------------------------------------------------------------------------------ *)
+
+(* quantile_zero_is_min / quantile_one_is_max, for non-empty finite lists *)
+Theorem C18_quantile_zero_is_min :
+  forall vs : list Q, vs <> [] ->
+  exists m, In m vs /\ (forall v, In v vs -> m <= v) /\ qquantile 0 vs == m.
+Proof. exact qquantile_zero_is_min. Qed.
+Print Assumptions C18_quantile_zero_is_min.
+
+Theorem C18_quantile_one_is_max :
+  forall vs : list Q, vs <> [] ->
+  exists m, In m vs /\ (forall v, In v vs -> v <= m) /\ qquantile 1 vs == m.
+Proof. exact qquantile_one_is_max. Qed.
+Print Assumptions C18_quantile_one_is_max.
+
+(* every quantile lies between them *)
+Theorem C18_quantile_between_extremes :
+  forall q (vs : list Q), vs <> [] -> qquantile 0 vs <= qquantile q vs /\ qquantile q vs <= qquantile 1 vs.
+Proof. exact qquantile_between_extremes. Qed.
+Print Assumptions C18_quantile_between_extremes.
+
+(* ------------------------------------------------------------------------------------------------ *)
+(* groups on which a metric is constant                                                               *)
+(* ------------------------------------------------------------------------------------------------ *)
+
+(* ci_brackets_point_for_constant_groups: if metric j takes the value c on every non-empty selection (with
+   repetition) of the data rows of group k, then as soon as group k occurs in one of the valid resamples the
+   cell (k, j) of EVERY entry of by_group_ci is c (resamples without the group contribute NaN, which
+   nanquantile skips), and so is the cell of the point estimate: lower bound == point estimate == upper
+   bound whatever the quantiles are, so every interval brackets the point estimate *)
+Theorem C18_ci_brackets_point_for_constant_groups :
+  forall (ms : list metric) ncf nsf qs rows idxs k j c,
+  (j < length ms)%nat -> length k = (ncf + nsf)%nat ->
+  constant_on_group ms full_key k j c rows ->
+  Forall (valid_resample (length rows)) idxs ->
+  (exists idx r, In idx idxs /\ In r (resample rows idx) /\ full_key r = k) ->
+  (forall e, In e (ci_by_group (populate_ci ms ncf nsf qs rows idxs)) ->
+     exists f row, e = RF f /\ assoc k f = Some row /\ cell_is c (nth j row NaN)) /\
+  (exists row, assoc k (d_by_group (point ms ncf nsf rows)) = Some row /\ cell_is c (nth j row NaN)).
+Proof. exact by_group_ci_constant_group. Qed.
+Print Assumptions C18_ci_brackets_point_for_constant_groups.
+
+(* the premise holds for the mean prediction of a group whose predictions are all c *)
+Theorem C18_mean_constant_on_group :
+  forall (ms : list metric) kf k j c rows,
+  nth j ms (fun _ => NaN) = m_mean ->
+  (forall r, In r rows -> kf r = k -> r_pred r == c) ->
+  constant_on_group ms kf k j c rows.
+Proof. exact mean_constant_on_group. Qed.
+Print Assumptions C18_mean_constant_on_group.
+
 (* non-vacuity: 3 rows in 2 groups, 3 valid resamples (group 1 is absent from the first one: NaN
    after alignment, skipped by nanquantile), mean prediction, quantiles 1/4 and 3/4 satisfy the
    bracket premises for m = 3 and give a strictly ordered pair *)
@@ -186,4 +323,34 @@ Proof.
   - vm_compute. reflexivity.
   - vm_compute. reflexivity.
   - split; [| split]; vm_compute; reflexivity || (intro H; discriminate H).
+Qed.
+
+(* non-vacuity of the added theorems on the same data: the extreme quantiles of [2/3; 2; 4/3] are 2/3 and 2;
+   group 1 (one row, prediction 3) satisfies the premises of C18_ci_brackets_point_for_constant_groups for
+   the mean (it is absent from the first resample and present in the others); with a seed stream that
+   counts up from the integer seed and a sampler that rotates the rows, the source's stream yields three
+   valid resamples for seed 5 *)
+Example C18_example_added :
+  let rows := mkrows [([], [0%Z], 0); ([], [0%Z], 1); ([], [1%Z], 3)] in
+  let idxs := [[0; 1; 1]; [2; 0; 2]; [1; 2; 0]]%nat in
+  (qquantile 0 [2 # 3; 2; 4 # 3] == 2 # 3 /\ qquantile 1 [2 # 3; 2; 4 # 3] == 2) /\
+  ((0 < length [m_mean])%nat /\ length [1%Z] = (0 + 1)%nat /\
+   constant_on_group [m_mean] full_key [1%Z] 0 3 rows /\
+   Forall (valid_resample (length rows)) idxs /\
+   (exists idx r, In idx idxs /\ In r (resample rows idx) /\ full_key r = [1%Z])) /\
+  (let seeded := fun (_ : draw_call) (z : Z) (k : nat) => map (fun i => (z + Z.of_nat i)%Z) (seq_nat 0 k) in
+   let draw := fun (s : Z) (n : nat) => map (fun i => Nat.modulo (Z.to_nat s + i) n) (seq_nat 0 n) in
+   let P := positions_src Z unit (fun _ _ _ => []) seeded draw 0%Z (b_stream Gen_bootstrap.src) in
+   P tt (RSInt 5) 3%nat 3%nat = [[2; 0; 1]; [0; 1; 2]; [1; 2; 0]]%nat /\
+   Forall (valid_resample 3) (P tt (RSInt 5) 3%nat 3%nat)).
+Proof.
+  cbv zeta. split; [| split].
+  - split; vm_compute; reflexivity.
+  - split; [repeat constructor |]. split; [reflexivity |]. split; [| split].
+    + apply mean_constant_on_group; [reflexivity |].
+      intros r Hr Hk. cbn in Hr. destruct Hr as [<- | [<- | [<- | []]]]; cbn in Hk; try discriminate Hk. reflexivity.
+    + repeat constructor.
+    + exists [2; 0; 2]%nat, (mkrow [] [1%Z] 3). split; [right; left; reflexivity |].
+      split; [left; reflexivity | reflexivity].
+  - split; [vm_compute; reflexivity |]. vm_compute. repeat constructor.
 Qed.
